@@ -172,3 +172,82 @@ func TestVerifC09Limits(t *testing.T) {
 	R.Bound = fmt.Sprintf("limit pairs (creating instance, receiving instance) %v x {active, pending} x every comment length 0..limit: create, extend, expire on A, each gossiped to B, then a full-state exchange", limits)
 	R.Write()
 }
+
+// C09, full-state batches: what an instance learns from a full-state exchange does not depend on how large the
+// payload is (the gossip size threshold lies at 700 bytes) nor on how much of it the receiver already knows.
+// For every n in 1..12 and every k <= n: A holds n silences, B already holds the first k of them (delivered one
+// by one), B merges A's full state: B holds all n, each as A has it.
+func TestVerifC09Batches(t *testing.T) {
+	part := "full-state-batches"
+	R := rep.New("C09", part)
+	run := func(n, k, pad int) (viol, desc string) {
+		synctest.Test(t, func(t *testing.T) {
+			ctx := context.Background()
+			a, outA := c09lNew(0)
+			b, _ := c09lNew(0)
+			time.Sleep(1500 * time.Millisecond)
+			now := time.Now()
+			var ids []string
+			for i := 0; i < n; i++ {
+				sil := &pb.Silence{MatcherSets: vMatchersA(), StartsAt: ts(now), EndsAt: ts(now.Add(time.Duration(100+i) * time.Second)), CreatedBy: "v", Comment: strings.Repeat("c", pad) + fmt.Sprint(i)}
+				if err := a.Set(ctx, sil); err != nil {
+					panic(err)
+				}
+				ids = append(ids, sil.Id)
+			}
+			for i := 0; i < k; i++ {
+				if err := b.Merge((*outA)[i]); err != nil {
+					panic(err)
+				}
+			}
+			fs, err := a.MarshalBinary()
+			if err != nil {
+				panic(err)
+			}
+			if err := b.Merge(fs); err != nil {
+				viol, desc = "merge-error", err.Error()
+				return
+			}
+			missing := 0
+			for _, id := range ids {
+				if c09lVersion(a, id) != c09lVersion(b, id) {
+					missing++
+				}
+			}
+			if missing > 0 {
+				viol = "full-state-exchange-does-not-transfer-the-state"
+				desc = fmt.Sprintf("A holds %d silences (full state %d bytes), B knew %d of them; after merging A's full state B lacks or differs in %d", n, len(fs), k, missing)
+			}
+		})
+		return
+	}
+	if rp := rep.ReplaySpec(); rp != nil {
+		if rp["part"] != part {
+			return
+		}
+		c := rep.Ints(rp["case"])
+		v, d := run(c[0], c[1], c[2])
+		fmt.Printf("REPLAY violation=%q %s\n", v, d)
+		R.Executions = 1
+		if v != "" {
+			R.Violate(v, d, rp)
+		}
+		R.Write()
+		return
+	}
+	for _, pad := range []int{0, 200} {
+		for n := 1; n <= 12; n++ {
+			for k := 0; k <= n; k++ {
+				R.Executions++
+				R.Transitions += int64(n + 1)
+				if v, d := run(n, k, pad); v != "" && R.NViolations < 5 {
+					R.Violate(v, d, map[string]any{"part": part, "case": []int{n, k, pad}})
+				}
+			}
+			R.AddKey(fmt.Sprint(pad, n))
+		}
+	}
+	R.Exhaustive = true
+	R.Bound = "A holds n = 1..12 silences (comments of 1 or 201 bytes: full states from ~150 bytes to ~5 KB, across the 700-byte gossip threshold), B knows the first k = 0..n; one full-state merge"
+	R.Write()
+}
